@@ -16,7 +16,7 @@ from ..common import Ctx
 
 LEVEL = "exploration"
 SHARDS = {"quick": 16, "thorough": 16}
-FLOOR = {"quick": 1500, "thorough": 30000}
+FLOOR = {"quick": 900, "thorough": 20000}
 REQUIRED_COUNTERS = ["calls_made", "requests_captured", "query_params_checked", "header_params_checked", "path_params_checked",
                      "bodies_checked_json", "optional_omitted_checked", "path_level_params_seen"]
 RULE = ("operations from the grammar (5 HTTP methods; path/query/header parameters incl. path-level ones; required/optional; scalar, "
